@@ -51,7 +51,9 @@ def strategy_impl(draw, tier):
     order = draw(gen.permutations_of(dims))
     integer_data = draw(st.booleans())
     values = draw(gen.data_values([sizes[d] for d in order], elements=gen.small_ints if integer_data else None))
-    dtype = draw(st.sampled_from(["float64", "float64", "float64", "float32"])) if integer_data else "float64"
+    # narrow integer types and boolean masks are data as well (wet-cell counts): the running sum is the sum, not the sum
+    # modulo the width of the type
+    dtype = draw(st.sampled_from(["float64", "float64", "float64", "float32", "int8", "bool", "int32"])) if integer_data else "float64"
     metrics = {}
     for a in axes:
         for p in a["positions"]:
@@ -135,9 +137,21 @@ def bcast(vec, k, ndim):
     return np.asarray(vec, dtype=np.float64).reshape(shape)
 
 
+def _int_fills(v):
+    if isinstance(v, dict):
+        return {k: _int_fills(x) for k, x in v.items()}
+    if isinstance(v, (int, float)) and not isinstance(v, bool):
+        return float(np.floor(v))
+    return v
+
+
 def check(case, ctx):
     import xarray as xr
 
+    if case.get("dtype") in ("int8", "bool", "int32") and case["mode"] == "plain":
+        # an integer array cannot hold a fractional fill value: for integer data the fill values are whole numbers
+        # (as in C01: "numbers both types represent exactly")
+        case = dict(case, call_fill=_int_fills(case["call_fill"]), grid=dict(case["grid"], fill_value=_int_fills(case["grid"]["fill_value"])))
     axes = case["axes"]
     names = [a["name"] for a in axes]
     by_name = {a["name"]: a for a in axes}
@@ -155,9 +169,18 @@ def check(case, ctx):
             by_name[n]["positions"], case["data_pos"][n], by_name[n]["default_shifts"])
 
     plain32 = case.get("dtype") == "float32" and case["mode"] == "plain"  # (metrics are float64: weighting promotes anyway)
-    a0 = np.asarray(case["values"], dtype=np.float64).astype("float32" if plain32 else "float64")
+    narrow = case.get("dtype") if (case.get("dtype") in ("int8", "bool", "int32") and case["mode"] == "plain") else None
+    vals0 = np.asarray(case["values"], dtype=np.float64)
+    if narrow == "bool":
+        vals0 = (vals0 != 0).astype(np.float64)
+    elif narrow == "int8":
+        vals0 = np.clip(vals0 * 25.0, -100, 100)          # sums leave the range of the type
+    elif narrow == "int32":
+        vals0 = np.clip(vals0, -4, 4) * 5.0e8
+    a0 = vals0.astype("float32" if plain32 else "float64")
     dims0 = list(case["dims"])
-    da = build.data_array(case["values"], dims0, name="phi").astype(a0.dtype)
+    da = build.data_array(vals0.tolist(), dims0, name="phi").astype(narrow or a0.dtype)
+    plain32 = plain32 or bool(narrow)   # (the steps below that rewrite the data in place are for floating-point data)
     mode = case["mode"]
     ax_arg = spell_axis(case["op_axes"], case["axis_spelling"])
     kw = dict(bkwargs(case), **to_kw(case, targets, case["to"] is not None))
@@ -197,7 +220,7 @@ def check(case, ctx):
     exact = mode == "plain" or len(case["op_axes"]) == 1
     compare(got, exp, exp_dims, f"{mode} cumsum vs running-sum model", exact=exact)
 
-    classes = [f"mode:{mode}", f"naxes:{len(case['op_axes'])}"]
+    classes = [f"mode:{mode}", f"naxes:{len(case['op_axes'])}", f"data:{narrow or a0.dtype.name}"]
     classes += [f"shift:{case['data_pos'][n]}>{targets[n]}" for n in case["op_axes"]]
     classes += [f"rule:{rules[n]}" for n in case["op_axes"]]
 
